@@ -49,6 +49,7 @@ inductive Ex where
   | nxt (j k : Nat)          -- sgr(): `params[i+j][k]`, j ≥ 1 (a checked access)
   | lenCur                   -- sgr(): `len(params[i])`
   | lenFrom                  -- sgr(): `len(params[i:])`
+  | pcur                     -- csi(): the value `p` of the enclosing `for i, p := range param` (`Stmt.forPmAll`)
   deriving DecidableEq, Repr, Inhabited
 
 inductive Cmp where
@@ -246,8 +247,15 @@ inductive Stmt where
   | setSel (n : Nat)
   | setDesig (k v : Nat)
   | setShape (x : Ex)
-  /-- `fmt.Fprintf(vt.pty, …)`: a reply to the child; no effect on the emulator state -/
+  /-- a statement that only builds or sends a reply to the child — `fmt.Fprintf(vt.pty, …)`, `vt.pty.WriteString(…)`,
+      `resp := strings.Builder{}`, `resp.WriteString("…")`, `resp := fmt.Sprintf("…", <ints>)` with `resp` a local used
+      for nothing else: no effect on the emulator state -/
   | reply
+  /-- csi(): `for _, param := range params { for i, p := range param { body } }` — every value of the parameter list,
+      sub-parameters included, in place; inside, `p` is `Ex.pcur` and `param[i] = e` is `setPcur e` -/
+  | forPmAll (body : Stmt)
+  /-- `param[i] = e` inside `forPmAll` -/
+  | setPcur (e : Ex)
   /-- `ch := vt.activeScreen[r][c]` (a copy of the cell, held in the frame) -/
   | loadCell (r c : Ex)
   /-- `vt.activeScreen[r][c].Character = ch.Character` -/
@@ -255,6 +263,30 @@ inductive Stmt where
   | prim (p : Prim)
   /-- `vt.f()` / `vt.f(arg)` -/
   | call (f : Fn) (arg : Option Ex)
+  | unknown (text : String)
+  deriving DecidableEq, Repr, Inhabited
+
+/-- The kinds of parsed sequence update() switches on (`ansi.Print`, `ansi.C0`, …). -/
+inductive SeqKind where
+  | print | c0 | esc | csi | osc | dcs | apc
+  deriving DecidableEq, Repr, Inhabited
+
+/-- What an arm of update()'s type switch does (recognised by the shape of its statements). -/
+inductive UArm where
+  /-- `vt.print(seq)` -/
+  | print
+  /-- `vt.c0(rune(seq))` -/
+  | c0
+  /-- `esc := append(seq.Intermediate, seq.Final); vt.esc(string(esc))` -/
+  | esc
+  /-- `csi := append(seq.Intermediate, seq.Final); vt.csi(string(csi), seq.Parameters)` -/
+  | csi
+  /-- `vt.osc(string(seq.Payload))` -/
+  | osc
+  /-- `switch seq.Final { case 'q': … }`: the sixel arm (Model/EmuDcs.lean; guards = the generated `dcsGuards`) -/
+  | dcs
+  /-- `vt.postEvent(…)` -/
+  | post
   | unknown (text : String)
   deriving DecidableEq, Repr, Inhabited
 
